@@ -100,7 +100,11 @@ func VerifC17Will() {
 	topics := []string{"w", "w/+", "#", "$SYS/w"}
 	ti := vChoose(4)
 	ver := byte(vConcrete(int(vByteIn("\x04\x05")), 4, 5))
-	c1 := vDial(s, vConnOpts{ver: ver, id: "c1", clean: true, keepalive: 60, will: true, willTopic: topics[ti], willRet: vBool()})
+	var delay uint32
+	if ver == 5 && vBool() {
+		delay = 5 // a delayed will goes through sendDelayedLWT instead
+	}
+	c1 := vDial(s, vConnOpts{ver: ver, id: "c1", clean: delay == 0, keepalive: 60, will: true, willTopic: topics[ti], willRet: vBool(), willDelay: delay, seiSet: delay > 0, sei: 100})
 	vHangup(c1)
 	s.sendDelayedLWT(vNow() + 10)
 	vDrain()
